@@ -1,3 +1,583 @@
 import LinOp.C14.Model
+set_option linter.unusedSimpArgs false
+/-! Helper lemmas for C14 (core Lean only). -/
 namespace LinOp.C14
+
+/-! ### insertion sort on an already sorted key list is the identity -/
+
+theorem isort_sorted {β : Type} : ∀ (l : List (String × β)), sortedKeys (l.map (·.1)) = true → isort l = l
+  | [], _ => rfl
+  | [x], _ => rfl
+  | x :: y :: r, h => by
+    simp only [List.map_cons, sortedKeys, Bool.and_eq_true, decide_eq_true_eq] at h
+    have ih := isort_sorted (y :: r) (by simpa [List.map_cons] using h.2)
+    show insertKV x (isort (y :: r)) = _
+    rw [ih]
+    simp [insertKV, h.1]
+
+/-! ### `__init__` on stored keyword arguments -/
+
+theorem asVal_of_isDiff (k : String) (x : Op) (h : x.isDiff = true) : asVal (k, x) = none := by
+  cases x <;> simp_all [asVal, Op.isDiff]
+
+theorem filter_zip_isDiff : ∀ (dn : List String) (dv : List Op), dv.all (·.isDiff) = true →
+    (dn.zip dv).filter (fun p => p.2.isDiff) = dn.zip dv ∧ (dn.zip dv).filterMap asVal = []
+  | [], _, _ => by simp
+  | _ :: _, [], _ => by simp
+  | n :: ns, v :: vs, h => by
+    simp only [List.all_cons, Bool.and_eq_true] at h
+    have ih := filter_zip_isDiff ns vs h.2
+    simp [List.zip_cons_cons, List.filter_cons, h.1, ih.1, List.filterMap_cons, asVal_of_isDiff n v h.1, ih.2]
+
+theorem filter_vals (nkw : KV) :
+    (nkw.map (fun p => (p.1, Op.val p.2))).filter (fun p => p.2.isDiff) = [] ∧
+    (nkw.map (fun p => (p.1, Op.val p.2))).filterMap asVal = nkw := by
+  refine ⟨?_, ?_⟩
+  · apply List.filter_eq_nil_iff.mpr
+    intro q hq
+    rcases List.mem_map.mp hq with ⟨w, _, rfl⟩
+    simp [Op.isDiff]
+  · induction nkw with
+    | nil => rfl
+    | cons p r ih => simp only [List.map_cons, List.filterMap_cons, asVal, ih]
+
+theorem init_fix (cls : String) (args : List Op) (dn : List String) (dv : List Op) (nkw hid : KV)
+    (hlen : dn.length = dv.length) (hd : dv.all (·.isDiff) = true)
+    (hs1 : sortedKeys dn = true) (hs2 : sortedKeys (nkw.map (·.1)) = true) :
+    init cls args (kwOf dn dv nkw) hid = .node cls args dn dv nkw hid := by
+  have h1 := filter_zip_isDiff dn dv hd
+  have h2 := filter_vals nkw
+  have hf : (dn.zip dv).map (·.1) = dn := List.map_fst_zip (by omega)
+  have hsn : (dn.zip dv).map (·.2) = dv := List.map_snd_zip (by omega)
+  unfold init kwOf
+  simp only [List.filter_append, List.filterMap_append, h1.1, h1.2, h2.1, h2.2, List.append_nil, List.nil_append]
+  rw [isort_sorted (dn.zip dv) (by rw [hf]; exact hs1), isort_sorted nkw hs2, hf, hsn]
+
+/-! ### keys of the stored keyword list -/
+
+theorem hasKey_append {β : Type} (l1 l2 : List (String × β)) (k : String) :
+    hasKey (l1 ++ l2) k = (hasKey l1 k || hasKey l2 k) := by simp [hasKey]
+
+theorem hasKey_zip : ∀ (dn : List String) (dv : List Op), dn.length = dv.length → ∀ k,
+    hasKey (dn.zip dv) k = dn.contains k
+  | [], [], _, k => by simp [hasKey]
+  | [], _ :: _, h, _ => by simp at h
+  | _ :: _, [], h, _ => by simp at h
+  | n :: ns, v :: vs, h, k => by
+    have ih := hasKey_zip ns vs (by simpa using h) k
+    simp only [hasKey] at ih
+    simp only [hasKey, List.zip_cons_cons, List.any_cons, List.contains_cons, ih]
+    by_cases hk : n = k
+    · simp [hk]
+    · have hk' : ¬ k = n := fun e => hk e.symm
+      simp [hk, hk']
+
+theorem hasKey_vals (nkw : KV) (k : String) :
+    hasKey (nkw.map (fun p => (p.1, Op.val p.2))) k = hasKey nkw k := by
+  simp [hasKey, List.any_map, Function.comp_def]
+
+theorem hasKey_kwOf (dn : List String) (dv : List Op) (nkw : KV) (h : dn.length = dv.length) (k : String) :
+    hasKey (kwOf dn dv nkw) k = (dn.contains k || hasKey nkw k) := by
+  unfold kwOf
+  rw [hasKey_append, hasKey_zip dn dv h, hasKey_vals]
+
+theorem mem_kwOf_key (dn : List String) (dv : List Op) (nkw : KV) (p : String × Op) (hp : p ∈ kwOf dn dv nkw) :
+    p.1 ∈ dn ∨ p.1 ∈ nkw.map (·.1) := by
+  unfold kwOf at hp
+  rcases List.mem_append.mp hp with h | h
+  · left; exact (List.of_mem_zip h).1
+  · right
+    rcases List.mem_map.mp h with ⟨q, hq, rfl⟩
+    exact List.mem_map.mpr ⟨q, hq, rfl⟩
+
+theorem find_none_of_not_hasKey {β : Type} (l : List (String × β)) (k : String) (h : hasKey l k = false) :
+    l.find? (·.1 = k) = none := by
+  apply List.find?_eq_none.mpr
+  intro x hx
+  simp only [hasKey, List.any_eq_false] at h
+  exact h x hx
+
+/-! ### the class specific normalisation is the identity on its normal form -/
+
+theorem dense_of_not_tensor (x : Op) (h : (x.cls != "#tensor") = true) : dense x = x := by
+  cases x <;> simp_all [dense, Op.cls]
+
+theorem map_dense_fix : ∀ (a : List Op), a.all (fun x => x.cls != "#tensor") = true → a.map dense = a
+  | [], _ => rfl
+  | x :: xs, h => by
+    simp only [List.all_cons, Bool.and_eq_true] at h
+    simp [dense_of_not_tensor x h.1, map_dense_fix xs h.2]
+
+theorem map_replace_fix (kw : List (String × Op)) (key : String) (v : Op)
+    (h : ∀ p ∈ kw, p.1 = key → p.2 = v) :
+    kw.map (fun p => if p.1 = key then (p.1, v) else p) = kw := by
+  induction kw with
+  | nil => rfl
+  | cons p r ih =>
+    have hr := ih (fun q hq => h q (List.mem_cons_of_mem _ hq))
+    simp only [List.map_cons, hr]
+    by_cases hk : p.1 = key
+    · have hv := h p (List.mem_cons_self ..) hk
+      rw [if_pos hk, ← hv]
+    · rw [if_neg hk]
+
+end LinOp.C14
+
+namespace LinOp.C14
+
+theorem normalise_fix (cls : String) (a : List Op) (kw : List (String × Op))
+    (h : normalForm cls a kw = true) : normalise cls a kw = some (a, kw) := by
+  unfold normalForm at h
+  unfold normalise
+  by_cases h1 : wrapsAll.contains cls = true
+  · rw [if_pos h1] at h ⊢
+    rw [map_dense_fix a h]
+  rw [if_neg h1] at h ⊢
+  by_cases h2 : cls = "InterpolatedLinearOperator"
+  · rw [if_pos h2] at h ⊢
+    cases a with
+    | nil => simp at h
+    | cons b rest => simp only [dense_of_not_tensor b h]
+  rw [if_neg h2] at h ⊢
+  by_cases h3 : cls = "TriangularLinearOperator"
+  · rw [if_pos h3] at h ⊢
+    cases a with
+    | nil => simp at h
+    | cons x rest =>
+      cases x with
+      | leaf l => simp [Op.cls] at h
+      | val v => simp [Op.cls] at h
+      | node c aa dn' d' nkw' hid' =>
+        simp only [Op.cls, Bool.and_eq_true, Bool.or_eq_true, Bool.not_eq_true', bne_iff_ne, ne_eq] at h
+        obtain ⟨⟨⟨_, _⟩, htl⟩, hbr⟩ := h
+        have hc : ¬ c = "TriangularLinearOperator" := by
+          intro e; subst e; revert htl; decide
+        simp only [hc, if_false, htl, Bool.false_eq_true]
+        by_cases hb : c = "BatchRepeatLinearOperator"
+        · simp only [hb, if_true]
+          rcases hbr with hbr | hbr
+          · exact absurd hb hbr
+          · cases aa with
+            | nil => simp [subTriOp] at hbr
+            | cons b t =>
+              cases t with
+              | nil =>
+                have hb' : b.cls = "TriangularLinearOperator" := by simpa [subTriOp] using hbr
+                simp [hb']
+              | cons _ _ => simp [subTriOp] at hbr
+        · simp only [hb, if_false]
+  rw [if_neg h3] at h ⊢
+  by_cases h4 : cls = "CatLinearOperator"
+  · rw [if_pos h4] at h ⊢
+    cases a with
+    | nil => simp at h
+    | cons f rest =>
+      simp only at h ⊢
+      cases hl : lookupInt kw "dim" with
+      | none => rw [hl] at h; simp at h
+      | some dd =>
+        rw [hl] at h
+        simp only [decide_eq_true_eq] at h
+        simp only [if_pos h]
+  rw [if_neg h4] at h ⊢
+  by_cases h5 : cls = "KernelLinearOperator"
+  · rw [if_pos h5] at h ⊢
+    simp only [Bool.and_eq_true] at h
+    rw [if_pos h.1, if_pos h.2]
+  rw [if_neg h5]
+
+end LinOp.C14
+
+namespace LinOp.C14
+
+theorem construct_fix (cfg : Cfg) (cls : String) (a : List Op) (dn : List String) (d : List Op) (nkw hid : KV)
+    (h : nodeOK cfg cls a dn d nkw hid = true) :
+    construct cfg cls a (kwOf dn d nkw) = some (.node cls a dn d nkw hid) := by
+  unfold nodeOK at h
+  cases hL : cfg.layout cls with
+  | none => rw [hL] at h; simp at h
+  | some L =>
+    rw [hL] at h
+    simp only [Bool.and_eq_true, decide_eq_true_eq] at h
+    obtain ⟨⟨⟨⟨⟨⟨⟨⟨⟨⟨hnf, hpos⟩, hlen⟩, hdiff⟩, hs1⟩, hs2⟩, hdn⟩, hnk⟩, hall⟩, hhid⟩, hh⟩ := h
+    have hstored : (if L.vararg = true then a else a.take L.npos) = a := by
+      by_cases hv : L.vararg = true
+      · rw [if_pos hv]
+      · rw [if_neg hv]
+        have : a.length ≤ L.npos := by simpa [hv] using hpos
+        exact List.take_of_length_le this
+    have hextra : (if L.vararg = true then ([] : List Op) else a.drop L.npos) = [] := by
+      by_cases hv : L.vararg = true
+      · rw [if_pos hv]
+      · rw [if_neg hv]
+        have : a.length ≤ L.npos := by simpa [hv] using hpos
+        exact List.drop_of_length_le this
+    have hkey : ∀ p ∈ kwOf dn d nkw, L.isStoredKw p.1 = true := by
+      intro p hp
+      rcases mem_kwOf_key dn d nkw p hp with h1 | h1
+      · exact List.all_eq_true.mp hdn _ h1
+      · rcases List.mem_map.mp h1 with ⟨q, hq, he⟩
+        rw [← he]; exact List.all_eq_true.mp hnk q hq
+    have hacc : (kwOf dn d nkw).all (fun p => L.accepts p.1) = true := by
+      apply List.all_eq_true.mpr
+      intro p hp
+      simp [Layout.accepts, hkey p hp]
+    have hpresent : ∀ p ∈ L.kwStored, hasKey (kwOf dn d nkw) p.1 = true := by
+      intro p hp
+      rw [hasKey_kwOf dn d nkw hlen]
+      exact List.all_eq_true.mp hall p hp
+    have hreq : L.kwStored.any (fun p => p.2.isNone && !hasKey (kwOf dn d nkw) p.1) = false := by
+      apply List.any_eq_false.mpr
+      intro p hp
+      simp [hpresent p hp]
+    have hfilter : (kwOf dn d nkw).filter (fun p => L.isStoredKw p.1) = kwOf dn d nkw :=
+      List.filter_eq_self.mpr hkey
+    have hmiss : L.kwStored.filterMap (missingDefault (kwOf dn d nkw)) = [] := by
+      apply List.filterMap_eq_nil_iff.mpr
+      intro p hp
+      obtain ⟨n, dflt⟩ := p
+      cases dflt with
+      | none => rfl
+      | some v => simp [missingDefault, hpresent (n, some v) hp]
+    have hhidden : L.hidden.map (hiddenValue (kwOf dn d nkw)) = L.hidden := by
+      have : ∀ p ∈ L.hidden, hiddenValue (kwOf dn d nkw) p = p := by
+        intro p hp
+        have hk : hasKey (kwOf dn d nkw) p.1 = false := by
+          rw [hasKey_kwOf dn d nkw hlen]
+          have := List.all_eq_true.mp hhid p hp
+          simpa using this
+        simp [hiddenValue, find_none_of_not_hasKey _ _ hk]
+      calc L.hidden.map (hiddenValue (kwOf dn d nkw)) = L.hidden.map id := List.map_congr_left this
+        _ = L.hidden := List.map_id _
+    unfold construct
+    simp only [hL, normalise_fix cls a _ hnf, hstored, hextra, List.zip_nil_right, List.nil_append, List.length_nil,
+      Nat.not_lt_zero, gt_iff_lt, if_false, hacc, hreq, hfilter, hmiss, hhidden, List.append_nil, Bool.not_true,
+      Bool.false_eq_true]
+    rw [init_fix cls a dn d nkw L.hidden hlen hdiff hs1 hs2, hh]
+
+end LinOp.C14
+
+namespace LinOp.C14
+
+theorem width_eq (x : Op) (h : representable x = true) : width x = (rep x).length := by
+  cases x with
+  | leaf l => simp [width, rep]
+  | val v => simp [representable] at h
+  | node c a dn d nkw hid => simp [width, rep]
+
+theorem widthL_eq : ∀ (xs : List Op), representableL xs = true → widthL xs = (repL xs).length
+  | [], _ => rfl
+  | x :: xs, h => by
+    simp only [representableL, Bool.and_eq_true] at h
+    simp [widthL, repL, width_eq x h.1, widthL_eq xs h.2]
+
+theorem callL_append (cfg : Cfg) : ∀ (t1 t2 : List RT) (flat : List Leaf) (x1 x2 : List Op),
+    callL cfg t1 flat = some x1 → callL cfg t2 flat = some x2 → callL cfg (t1 ++ t2) flat = some (x1 ++ x2)
+  | [], t2, flat, x1, x2, h1, h2 => by
+    simp only [callL, Option.some.injEq] at h1
+    subst h1; simpa using h2
+  | t :: ts, t2, flat, x1, x2, h1, h2 => by
+    simp only [callL] at h1
+    cases hc : call cfg t flat with
+    | none => rw [hc] at h1; simp at h1
+    | some y =>
+      cases hcs : callL cfg ts flat with
+      | none => rw [hc, hcs] at h1; simp at h1
+      | some ys =>
+        rw [hc, hcs] at h1
+        simp only [Option.some.injEq] at h1
+        subst h1
+        have ih := callL_append cfg ts t2 flat ys x2 hcs h2
+        simp only [List.cons_append, callL, hc, ih]
+
+mutual
+theorem call_tree (cfg : Cfg) : ∀ (o : Op), normal cfg o = true → representable o = true →
+    ∀ (pre rest : List Leaf), call cfg (treeAt pre.length o) (pre ++ rep o ++ rest) = some o
+  | .leaf l, _, _, pre, rest => by
+    simp [treeAt, call, rep]
+  | .val v, _, hr, _, _ => by simp [representable] at hr
+  | .node cls a dn d nkw hid, hn, hr, pre, rest => by
+    simp only [normal, Bool.and_eq_true] at hn
+    simp only [representable, Bool.and_eq_true] at hr
+    obtain ⟨⟨hok, hna⟩, hnd⟩ := hn
+    have ha := callL_tree cfg a hna hr.1 [] (repL d)
+    have hd := callL_tree cfg d hnd hr.2 (repL a) []
+    simp only [List.nil_append, List.length_nil, List.append_nil] at ha hd
+    rw [← widthL_eq a hr.1] at hd
+    have hcat := callL_append cfg _ _ _ _ _ ha hd
+    have hlen : dn.length = d.length := by
+      unfold nodeOK at hok
+      cases hL : cfg.layout cls with
+      | none => rw [hL] at hok; simp at hok
+      | some L =>
+        rw [hL] at hok
+        simp only [Bool.and_eq_true, decide_eq_true_eq] at hok
+        exact hok.1.1.1.1.1.1.1.1.2
+    simp only [treeAt, call, rep]
+    have hslice : ((pre ++ (repL a ++ repL d) ++ rest).drop pre.length).take
+        (pre.length + (repL a ++ repL d).length - pre.length) = repL a ++ repL d := by
+      rw [List.append_assoc, List.drop_left, Nat.add_sub_cancel_left, List.take_left]
+    rw [hslice, hcat]
+    simp only [List.length_append, hlen, Nat.add_sub_cancel, List.take_left', List.drop_left']
+    exact construct_fix cfg cls a dn d nkw hid hok
+theorem callL_tree (cfg : Cfg) : ∀ (xs : List Op), normalL cfg xs = true → representableL xs = true →
+    ∀ (pre rest : List Leaf), callL cfg (treeL pre.length xs) (pre ++ repL xs ++ rest) = some xs
+  | [], _, _, _, _ => by simp [treeL, callL]
+  | x :: xs, hn, hr, pre, rest => by
+    simp only [normalL, Bool.and_eq_true] at hn
+    simp only [representableL, Bool.and_eq_true] at hr
+    have h1 := call_tree cfg x hn.1 hr.1 pre (repL xs ++ rest)
+    have h2 := callL_tree cfg xs hn.2 hr.2 (pre ++ rep x) rest
+    simp only [List.length_append, ← width_eq x hr.1] at h2
+    simp only [treeL, callL, repL]
+    have e1 : pre ++ (rep x ++ repL xs) ++ rest = pre ++ rep x ++ (repL xs ++ rest) := by simp
+    have e2 : pre ++ (rep x ++ repL xs) ++ rest = pre ++ rep x ++ repL xs ++ rest := by simp
+    rw [e1, h1, ← e1, e2, h2]
+end
+
+end LinOp.C14
+
+/-! ### the node predicate depends only on the skeleton of the arguments -/
+namespace LinOp.C14
+
+def Skel.cls : Skel → String
+  | .node c _ _ _ _ _ => c
+  | .leaf => "#tensor"
+  | .val _ => "#value"
+
+theorem cls_skel (x : Op) : (skel x).cls = x.cls := by cases x <;> rfl
+
+def Skel.subTri : Skel → Bool
+  | .node _ [b] _ _ _ _ => b.cls = "TriangularLinearOperator"
+  | _ => false
+
+theorem subTri_skel (x : Op) : (skel x).subTri = subTriOp x := by
+  cases x with
+  | leaf l => rfl
+  | val v => rfl
+  | node c a dn d nkw hid =>
+    cases a with
+    | nil => rfl
+    | cons b t =>
+      cases t with
+      | nil => simp [skel, skelL, Skel.subTri, cls_skel, subTriOp]
+      | cons _ _ => simp [skel, skelL, Skel.subTri, subTriOp]
+
+def Skel.isDiff : Skel → Bool
+  | .val _ => false
+  | _ => true
+
+theorem isDiff_skel (x : Op) : (skel x).isDiff = x.isDiff := by cases x <;> rfl
+
+theorem skelL_length : ∀ (xs : List Op), (skelL xs).length = xs.length
+  | [] => rfl
+  | _ :: xs => by simp [skelL, skelL_length xs]
+
+theorem skelL_eq_map : ∀ (xs : List Op), skelL xs = xs.map skel
+  | [] => rfl
+  | x :: xs => by simp [skelL, skelL_eq_map xs]
+
+theorem all_isDiff_skel (xs ys : List Op) (h : skelL xs = skelL ys) :
+    xs.all (·.isDiff) = ys.all (·.isDiff) := by
+  have e : ∀ zs : List Op, zs.all (·.isDiff) = (skelL zs).all (·.isDiff) := by
+    intro zs; rw [skelL_eq_map, List.all_map]; congr 1; funext x; exact (isDiff_skel x).symm
+  rw [e xs, e ys, h]
+
+theorem lookupInt_kwOf (dn : List String) (d : List Op) (nkw : KV) (k : String)
+    (hlen : dn.length = d.length) (hd : d.all (·.isDiff) = true) :
+    lookupInt (kwOf dn d nkw) k =
+      if dn.contains k then none else lookupInt (nkw.map (fun p => (p.1, Op.val p.2))) k := by
+  unfold lookupInt kwOf
+  rw [List.find?_append]
+  by_cases hc : dn.contains k = true
+  · rw [if_pos hc]
+    have hk : hasKey (dn.zip d) k = true := by rw [hasKey_zip dn d hlen]; exact hc
+    simp only [hasKey, List.any_eq_true] at hk
+    obtain ⟨p, hp, hpk⟩ := hk
+    cases hf : (dn.zip d).find? (·.1 = k) with
+    | none =>
+      have := List.find?_eq_none.mp hf p hp
+      exact absurd hpk this
+    | some q =>
+      have hq := List.mem_of_find?_eq_some hf
+      have hq2 : q.2 ∈ d := (List.of_mem_zip hq).2
+      have hdq := List.all_eq_true.mp hd _ hq2
+      obtain ⟨qk, qv⟩ := q
+      cases qv <;> simp_all [Op.isDiff]
+  · rw [if_neg hc]
+    have hk : hasKey (dn.zip d) k = false := by
+      rw [hasKey_zip dn d hlen]; simpa using hc
+    rw [find_none_of_not_hasKey _ _ hk]
+    simp
+
+theorem allDict_kwOf (dn : List String) (d : List Op) (nkw : KV) (k : String)
+    (hlen : dn.length = d.length) (hd : d.all (·.isDiff) = true) :
+    (kwOf dn d nkw).all (fun p => p.1 != k || isDictVal p.2) =
+      (!dn.contains k && (nkw.map (fun p => (p.1, Op.val p.2))).all (fun p => p.1 != k || isDictVal p.2)) := by
+  unfold kwOf
+  rw [List.all_append]
+  congr 1
+  have hnd : ∀ p ∈ dn.zip d, isDictVal p.2 = false := by
+    intro p hp
+    have := List.all_eq_true.mp hd _ (List.of_mem_zip hp).2
+    obtain ⟨pk, pv⟩ := p
+    cases pv <;> simp_all [Op.isDiff, isDictVal]
+  by_cases hc : dn.contains k = true
+  · have hk : hasKey (dn.zip d) k = true := by rw [hasKey_zip dn d hlen]; exact hc
+    simp only [hasKey, List.any_eq_true] at hk
+    obtain ⟨p, hp, hpk⟩ := hk
+    rw [hc]
+    apply List.all_eq_false.mpr
+    refine ⟨p, hp, ?_⟩
+    simp only [decide_eq_true_eq] at hpk
+    simp [hpk, hnd p hp]
+  · have hk : hasKey (dn.zip d) k = false := by rw [hasKey_zip dn d hlen]; simpa using hc
+    have hc' : dn.contains k = false := by simpa using hc
+    rw [hc']
+    apply List.all_eq_true.mpr
+    intro p hp
+    simp only [hasKey, List.any_eq_false] at hk
+    have := hk p hp
+    simp only [decide_eq_true_eq] at this
+    simp [this]
+
+/-- the features of the positional arguments that `normalForm` reads -/
+def argFeat (a : List Op) : List (String × Bool) := a.map (fun x => ((skel x).cls, (skel x).subTri))
+
+theorem argFeat_congr (a a' : List Op) (h : skelL a = skelL a') : argFeat a = argFeat a' := by
+  unfold argFeat
+  have e : ∀ zs : List Op, zs.map (fun x => ((skel x).cls, (skel x).subTri)) =
+      (skelL zs).map (fun s => (s.cls, s.subTri)) := by
+    intro zs; rw [skelL_eq_map, List.map_map]; rfl
+  rw [e a, e a', h]
+
+theorem normalForm_congr (cls : String) (a a' : List Op) (dn : List String) (d d' : List Op) (nkw : KV)
+    (ha : skelL a = skelL a') (hlen : dn.length = d.length) (hlen' : dn.length = d'.length)
+    (hd : d.all (·.isDiff) = true) (hd' : d'.all (·.isDiff) = true) :
+    normalForm cls a (kwOf dn d nkw) = normalForm cls a' (kwOf dn d' nkw) := by
+  have hf := argFeat_congr a a' ha
+  unfold normalForm
+  rw [lookupInt_kwOf dn d nkw "dim" hlen hd, lookupInt_kwOf dn d' nkw "dim" hlen' hd',
+    allDict_kwOf dn d nkw _ hlen hd, allDict_kwOf dn d' nkw _ hlen' hd']
+  have hany : ∀ (dd : List Op), dn.length = dd.length →
+      (kwOf dn dd nkw).any (fun p => decide (p.1 = "num_nonbatch_dimensions")) =
+        (dn.contains "num_nonbatch_dimensions" || hasKey nkw "num_nonbatch_dimensions") := by
+    intro dd hl; exact hasKey_kwOf dn dd nkw hl _
+  rw [hany d hlen, hany d' hlen']
+  -- positional features
+  cases a with
+  | nil =>
+    cases a' with
+    | nil => rfl
+    | cons y ys => simp [skelL] at ha
+  | cons x xs =>
+    cases a' with
+    | nil => simp [skelL] at ha
+    | cons y ys =>
+      simp only [argFeat, List.map_cons, List.cons.injEq, Prod.mk.injEq] at hf
+      obtain ⟨⟨hc, hs⟩, hrest⟩ := hf
+      rw [cls_skel, cls_skel] at hc
+      rw [subTri_skel, subTri_skel] at hs
+      have hall : (x :: xs).all (fun z => z.cls != "#tensor") = (y :: ys).all (fun z => z.cls != "#tensor") := by
+        have e : ∀ zs : List Op, zs.all (fun z => z.cls != "#tensor") = (argFeat zs).all (fun q => q.1 != "#tensor") := by
+          intro zs; unfold argFeat; rw [List.all_map]; congr 1; funext z; simp [cls_skel]
+        rw [e, e, argFeat_congr _ _ ha]
+      simp only [hall, hc, hs]
+
+theorem nodeOK_congr (cfg : Cfg) (cls : String) (a a' : List Op) (dn : List String) (d d' : List Op) (nkw hid : KV)
+    (ha : skelL a = skelL a') (hd : skelL d = skelL d')
+    (h : nodeOK cfg cls a dn d nkw hid = true) : nodeOK cfg cls a' dn d' nkw hid = true := by
+  unfold nodeOK at h ⊢
+  cases hL : cfg.layout cls with
+  | none => rw [hL] at h; simp at h
+  | some L =>
+    rw [hL] at h
+    simp only [Bool.and_eq_true, decide_eq_true_eq] at h ⊢
+    obtain ⟨⟨⟨⟨⟨⟨⟨⟨⟨⟨hnf, hpos⟩, hlen⟩, hdiff⟩, hs1⟩, hs2⟩, hdn⟩, hnk⟩, hall⟩, hhid⟩, hh⟩ := h
+    have la : a'.length = a.length := by rw [← skelL_length a', ← ha, skelL_length]
+    have ld : d'.length = d.length := by rw [← skelL_length d', ← hd, skelL_length]
+    have hdiff' : d'.all (·.isDiff) = true := by rw [← all_isDiff_skel d d' hd]; exact hdiff
+    refine ⟨⟨⟨⟨⟨⟨⟨⟨⟨⟨?_, ?_⟩, ?_⟩, hdiff'⟩, hs1⟩, hs2⟩, hdn⟩, hnk⟩, hall⟩, hhid⟩, hh⟩
+    · rw [← normalForm_congr cls a a' dn d d' nkw ha hlen (by omega) hdiff hdiff']; exact hnf
+    · rw [la]; exact hpos
+    · omega
+
+end LinOp.C14
+
+/-! ### rebuilding with other tensors -/
+namespace LinOp.C14
+
+theorem take_drop_split {α : Type} (ts : List α) (n m : Nat) (h : ts.length = n + m) :
+    (ts.take n).length = n ∧ (ts.drop n).length = m ∧ ts.take n ++ ts.drop n = ts := by
+  refine ⟨?_, ?_, List.take_append_drop n ts⟩
+  · rw [List.length_take]; omega
+  · rw [List.length_drop]; omega
+
+mutual
+theorem call_any (cfg : Cfg) : ∀ (o : Op), normal cfg o = true → representable o = true →
+    ∀ (pre ts rest : List Leaf), ts.length = (rep o).length →
+      ∃ o', call cfg (treeAt pre.length o) (pre ++ ts ++ rest) = some o' ∧ skel o' = skel o ∧ rep o' = ts
+  | .leaf l, _, _, pre, ts, rest, hts => by
+    match ts, hts with
+    | [t], _ =>
+      refine ⟨.leaf t, ?_, rfl, rfl⟩
+      simp [treeAt, call]
+  | .val v, _, hr, _, _, _, _ => by simp [representable] at hr
+  | .node cls a dn d nkw hid, hn, hr, pre, ts, rest, hts => by
+    simp only [normal, Bool.and_eq_true] at hn
+    simp only [representable, Bool.and_eq_true] at hr
+    obtain ⟨⟨hok, hna⟩, hnd⟩ := hn
+    simp only [rep, List.length_append] at hts
+    obtain ⟨hla, hld, hsplit⟩ := take_drop_split ts (repL a).length (repL d).length hts
+    obtain ⟨a', hca, hsa, hra⟩ := callL_any cfg a hna hr.1 [] (ts.take (repL a).length) (ts.drop (repL a).length) hla
+    obtain ⟨d', hcd, hsd, hrd⟩ := callL_any cfg d hnd hr.2 (ts.take (repL a).length) (ts.drop (repL a).length) [] hld
+    simp only [List.nil_append, List.length_nil, List.append_nil, hsplit] at hca hcd
+    rw [hla, ← widthL_eq a hr.1] at hcd
+    have hcat := callL_append cfg _ _ _ _ _ hca hcd
+    have hok' := nodeOK_congr cfg cls a a' dn d d' nkw hid hsa.symm hsd.symm hok
+    have hlen : dn.length = d'.length := by
+      unfold nodeOK at hok'
+      cases hL : cfg.layout cls with
+      | none => rw [hL] at hok'; simp at hok'
+      | some L =>
+        rw [hL] at hok'
+        simp only [Bool.and_eq_true, decide_eq_true_eq] at hok'
+        exact hok'.1.1.1.1.1.1.1.1.2
+    refine ⟨.node cls a' dn d' nkw hid, ?_, ?_, ?_⟩
+    · simp only [treeAt, call, List.length_append]
+      have hslice : ((pre ++ ts ++ rest).drop pre.length).take
+          (pre.length + ((repL a).length + (repL d).length) - pre.length) = ts := by
+        rw [List.append_assoc, List.drop_left, Nat.add_sub_cancel_left, ← hts, List.take_left]
+      rw [hslice, hcat]
+      simp only [List.length_append, hlen, Nat.add_sub_cancel, List.take_left', List.drop_left']
+      exact construct_fix cfg cls a' dn d' nkw hid hok'
+    · simp only [skel, hsa, hsd]
+    · simp only [rep, hra, hrd, hsplit]
+theorem callL_any (cfg : Cfg) : ∀ (xs : List Op), normalL cfg xs = true → representableL xs = true →
+    ∀ (pre ts rest : List Leaf), ts.length = (repL xs).length →
+      ∃ xs', callL cfg (treeL pre.length xs) (pre ++ ts ++ rest) = some xs' ∧ skelL xs' = skelL xs ∧ repL xs' = ts
+  | [], _, _, _, ts, _, hts => by
+    have : ts = [] := List.eq_nil_of_length_eq_zero (by simpa [repL] using hts)
+    subst this
+    exact ⟨[], by simp [treeL, callL], rfl, rfl⟩
+  | x :: xs, hn, hr, pre, ts, rest, hts => by
+    simp only [normalL, Bool.and_eq_true] at hn
+    simp only [representableL, Bool.and_eq_true] at hr
+    simp only [repL, List.length_append] at hts
+    obtain ⟨hlx, hlxs, hsplit⟩ := take_drop_split ts (rep x).length (repL xs).length hts
+    obtain ⟨x', hcx, hsx, hrx⟩ := call_any cfg x hn.1 hr.1 pre (ts.take (rep x).length) (ts.drop (rep x).length ++ rest) hlx
+    obtain ⟨xs', hcxs, hsxs, hrxs⟩ := callL_any cfg xs hn.2 hr.2 (pre ++ ts.take (rep x).length) (ts.drop (rep x).length) rest hlxs
+    simp only [List.length_append, hlx, ← width_eq x hr.1] at hcxs
+    have e1 : pre ++ ts.take (rep x).length ++ (ts.drop (rep x).length ++ rest) = pre ++ ts ++ rest := by
+      rw [List.append_assoc pre, ← List.append_assoc (ts.take _), hsplit, ← List.append_assoc]
+    have e2 : pre ++ ts.take (rep x).length ++ ts.drop (rep x).length ++ rest = pre ++ ts ++ rest := by
+      rw [List.append_assoc pre, hsplit]
+    rw [e1] at hcx
+    rw [e2] at hcxs
+    refine ⟨x' :: xs', ?_, ?_, ?_⟩
+    · simp only [treeL, callL, hcx, hcxs]
+    · simp only [skelL, hsx, hsxs]
+    · simp only [repL, hrx, hrxs, hsplit]
+end
+
 end LinOp.C14
